@@ -21,25 +21,40 @@ import c20_gen as G  # noqa: E402
 
 CLAIMED = True
 LEVEL = "proof"
-TECHNIQUE = ("Lean 4 refinement proofs (hand models of the container code paths -> List / association list, invariants by "
-             "induction over histories) + lock-step correspondence runs against the real templates and XalanDOMString "
-             "under ASan/UBSan")
-LEVEL_TEXT = ("Machine-checked refinement: every history of operations within the std:: preconditions yields, in the "
-              "transcribed code paths of XalanVector, XalanMap/XalanSet (entry list, free list, buckets of node pointers, "
-              "rehash, erase-threshold compaction, recycling, copy, swap), XalanDeque (block index), XalanList (node ids, "
-              "free list, splice) and XalanDOMString (NUL-terminated XalanVector + m_size), no out-of-bounds / dangling "
-              "access, the std:: observable state and the class invariant (Props/C20.lean, induction over histories). "
-              "The models are tied to the working tree by replaying generated request logs on the real code (ASan+UBSan, "
-              "lock-step with std::vector/map/set/deque/list/u16string) and on the compiled Lean models, comparing the "
-              "full observable dump (plus bucket/pointer/free-list counters read through a derived class) after every "
-              "operation.")
-LEVEL_NOTE = ("Trusted: Lean kernel; axioms propext/Classical.choice/Quot.sound only; the hand transcription of the five "
-              "headers / XalanDOMString.cpp (checked by the correspondence run, bounded by generator coverage). Modelled, not "
-              "verified: placement construction/destruction, raw pointer arithmetic of std::copy/copy_backward/fill/memmove, "
-              "the prev/next pointer surgery of XalanList (abstracted to sequence edits), capacities of bucket vectors, "
-              "the char* (transcoding) overloads of XalanDOMString, XalanDOMStringPool/HashTable, XalanBitmap, "
-              "XalanObjectCache. Five repairs are proposed (proposed/C20-*.diff) and the models follow the repaired code; "
-              "until they are committed the unrepaired behaviour is reported as narrowly keyed KNOWN-FINDINGs.")
+TECHNIQUE = ("Lean 4 refinement proofs (hand models of the code paths of every container anchored in the property -> List / "
+             "association list / set, invariants by induction over operation histories) + lock-step correspondence runs of "
+             "the real code against the std:: containers and the compiled Lean models under ASan/UBSan, with int and with a "
+             "non-trivially-copyable instrumented element type")
+LEVEL_TEXT = ("Machine-checked (Props/C20.lean, 44 theorems, axioms propext/Classical.choice/Quot.sound at most): "
+              "XalanVector - every operation history inside std::vector's preconditions makes no out-of-bounds / raw-cell / "
+              "stale-iterator access, yields the std contents and size<=allocation; the three storage primitives are the "
+              "placement discipline (construct only cell `size`, assign only below `size`, destroy only the last cell); "
+              "copy_backward / forward copy modelled element-wise and proved safe for the overlap each is used with. "
+              "XalanMap/XalanSet - every history of insert, operator[]=, find, erase (with erase-threshold compaction), clear, "
+              "operator=, swap, and the copy constructor: no zero modulus / dangling bucket pointer / empty free list, the "
+              "representation invariant, and iteration order + results of an insertion-ordered association list (sets: "
+              "duplicate-free key list). XalanDeque - every push_back/pop_back/resize/clear/operator= history and swap for any "
+              "block sizes: block-index invariant, std contents, size()/operator[]/back(). XalanList - insert/erase/clear "
+              "histories through iterators: node invariant, free-list reuse, iterator stability. XalanDOMString - every "
+              "history of all modelled mutators from both representations of the empty string: invariant (buffer empty or "
+              "chars ++ [0], m_size) and std::u16string result. XalanObjectCache - under the release-what-you-hold contract "
+              "no object is handed out twice and every object comes back reset. XalanDOMStringPool/HashTable - get returns "
+              "the requested characters, equal requests the same object, pool = distinct strings in first-request order. "
+              "XalanBitmap - set/clear/toggle change exactly the addressed bit (complete byte table by decide). The models "
+              "are tied to the working tree by replaying generated request logs on the real code (header templates and the "
+              "freshly built libxalan-c, ASan+UBSan, lock-step with std::vector/map/set/deque/list/u16string/vector<bool>) and "
+              "on the compiled Lean models, comparing the full observable dump after every request, including bucket / "
+              "stale-pointer / free-list counters, list block counts and the live-instance count of the element class.")
+LEVEL_NOTE = ("Trusted: Lean kernel (+ leanchecker in the thorough tier); the hand transcription of XalanVector/Map/Set/Deque/"
+              "List/ObjectCache.hpp, XalanDOMString.{hpp,cpp}, XalanDOMStringPool/HashTable.cpp, XalanBitmap.{hpp,cpp} (checked "
+              "by the correspondence run, bounded by generator coverage); harnesses, generators and python references. "
+              "Modelled, not verified: placement new / destructor calls themselves (observed through the instrumented element "
+              "class), the prev/next pointer surgery of XalanList (sequence edits in the model; real code under ASan), "
+              "capacities of bucket vectors and of deque blocks, memory-manager failure paths, the char* (transcoding) "
+              "overloads of XalanDOMString, the XALAN_OBJECT_CACHE_KEEP_BUSY_LIST variant of XalanObjectCache (not compiled), "
+              "the arena allocator behind XalanDOMStringPool. Partial theorems: list splice/swap histories (single-step "
+              "lemmas and correspondence only); no event-trace (construct/destroy log) theorem - the balance is expressed by "
+              "the checked primitives and observed as the live-instance count.")
 DESIGN_REF = "DESIGN.md section 5, C20; design/C20.md"
 
 THEOREMS = [
@@ -68,6 +83,16 @@ THEOREMS = [
     "XalanModel.Props.C20.list_node_source",
     "XalanModel.Props.C20.list_erase_refines",
     "XalanModel.Props.C20.list_clear_refines",
+    "XalanModel.Props.C20.list_history_partial",
+    "XalanModel.Props.C20.set_step_refines",
+    "XalanModel.Props.C20.objcache_get_refines",
+    "XalanModel.Props.C20.objcache_release_put_refines",
+    "XalanModel.Props.C20.objcache_history",
+    "XalanModel.Props.C20.pool_get_refines",
+    "XalanModel.Props.C20.pool_get_canonical",
+    "XalanModel.Props.C20.pool_new_clear_inv",
+    "XalanModel.Props.C20.bitmap_refines",
+    "XalanModel.Props.C20.bitmap_new",
     "XalanModel.Props.C20.domstring_step_refines",
     "XalanModel.Props.C20.domstring_refines",
     "XalanModel.Props.C20.domstring_new_inv",
@@ -105,6 +130,10 @@ CORPUS = [
     # default-parameter map / set grown through the three first rehash points (41st, 88th, 188th distinct insertion)
     ("map", ["map ins 0 %d %d" % (100 + 2 * i, i) for i in range(190)] + ["map find 0 180", "map erase 0 274", "map find 0 476"]),
     ("set", ["set ins 0 %d" % (100 + 2 * i) for i in range(190)] + ["set count 0 180", "set erase 0 274", "set count 0 476"]),
+    ("oc", ["oc get 0", "oc put 0 5", "oc get 1", "oc release 0", "oc get 2", "oc put 2 7", "oc release 1", "oc release 2", "oc get 0",
+            "oc get 3"]),
+    ("pool", ["pool new 0 3", "pool get 0 1.2", "pool get 0 2.1", "pool get 0 1.2", "pool get 0 -", "pool get 0 7", "pool get 0 1.2.3",
+              "pool clear 0", "pool get 0 2.1"]),
     ("bmp", ["bmp new 0 17", "bmp set 0 0", "bmp set 0 7", "bmp set 0 8", "bmp set 0 16", "bmp toggle 0 7", "bmp clear 0 8",
              "bmp toggle 0 3", "bmp clearall 0", "bmp set 0 15"]),
     ("lst", ["lst pushb 0 1", "lst pushb 0 2", "lst save 0 0 1", "lst eraseat 0 0", "lst pushf 0 5", "lst deref 0 0",
@@ -238,6 +267,16 @@ def features(kind, mlines):
                 f.add("spare-capacity")
     elif kind == "vec":
         f.add("vec")
+    elif kind == "oc":
+        ids = [l.split()[0] for l in mlines if l.startswith("r=")]
+        if len(ids) != len(set(ids)):
+            f.add("object-reused")
+    elif kind == "pool":
+        if any(re.search(r" \d+=[2-9]", l) for l in mlines):
+            f.add("bucket-collision")
+        ids = [l.split()[0] for l in mlines if l.startswith("r=") and not l.startswith("r=E")]
+        if len(ids) != len(set(ids)):
+            f.add("pooled-string-returned-again")
     elif kind == "bmp":
         if any(" 1" in l.split(":", 1)[-1] for l in mlines):
             f.add("bit-set")
@@ -259,14 +298,14 @@ class Runner:
                                           extra=["-DNDEBUG"]) if with_string else None
 
     def harness(self, kind):
-        return self.h_str if kind in ("str", "bmp") else self.h_cont
+        return self.h_str if kind in ("str", "bmp", "pool") else self.h_cont
 
     elem = False   # which element type the container streams currently use (toggled by run(ctx))
 
     def run(self, kind, seqs, tag, elem=None):
         if elem is None:
             elem = self.elem and kind in ("vec", "map", "deq", "lst")
-        env = {"ASAN_OPTIONS": "detect_leaks=0:abort_on_error=0"} if kind in ("str", "bmp") else None
+        env = {"ASAN_OPTIONS": "detect_leaks=0:abort_on_error=0"} if kind in ("str", "bmp", "pool") else None
         if elem:
             return run_stream(self.h_elem, self.model, seqs, self.work, tag + "_elem", env,
                               timeout=(900 if self.ctx.thorough else 30) if len(seqs) > 1 else 3)
@@ -392,6 +431,8 @@ def run(ctx):
         "lst": (1200, 60) if not T else (15000, 200),
         "str": (1500, 50) if not T else (20000, 150),
         "bmp": (300, 40) if not T else (4000, 120),
+        "oc": (300, 40) if not T else (4000, 120),
+        "pool": (400, 60) if not T else (5000, 200),
     }
     gens = {
         "vec": lambda: G.gen_vec(r, plan["vec"][1], alias=(nbox[0] % 3 == 0)),
@@ -401,6 +442,8 @@ def run(ctx):
         "deq": lambda: G.gen_deq(r, plan["deq"][1], multi=(nbox[0] % 6 == 0 and nbox[0] < 1200)),
         "lst": lambda: G.gen_lst(r, plan["lst"][1]),
         "bmp": lambda: G.gen_bmp(r, plan["bmp"][1]),
+        "oc": lambda: G.gen_oc(r, plan["oc"][1]),
+        "pool": lambda: G.gen_pool(r, plan["pool"][1]),
         "str": lambda: G.gen_str(r, plan["str"][1], defects=(nbox[0] % 5 == 0 and nbox[0] < 1500)),
     }
     big_box = [False]
@@ -411,9 +454,9 @@ def run(ctx):
     agree = [True]
     unrun = [0]
     total_leak = 0
-    kinds = ["vec", "map", "set", "deq", "lst", "str", "bmp"]
+    kinds = ["vec", "map", "set", "deq", "lst", "oc", "str", "bmp", "pool"]
     if nolib:
-        kinds.remove("str"); kinds.remove("bmp")
+        kinds.remove("str"); kinds.remove("bmp"); kinds.remove("pool")
         ctx.oblige("XalanDOMString correspondence was run (VERIF_C20_NOLIB unset)", "correspondence", False,
                    "VERIF_C20_NOLIB=1 is for mutation trials only")
     for kind in kinds:
@@ -483,8 +526,9 @@ def replay(ctx, path):
             print("  ", o.get("name"), "--", (o.get("detail") or "")[:1500])
         return 1
     rn = Runner(ctx)
+    rn.elem = bool(inp.get("elem"))      # the element type the failure was found with (Elem class / int)
     res, _, mseq = rn.run(kind, [ops], "replay")
-    print("kind:", kind)
+    print("kind:", kind, "(element type: %s)" % ("Elem (non-trivial copy)" if rn.elem else "int"))
     print("ops:", ops)
     print("tags:", G.tags(kind, ops))
     print("result:", res[0])
